@@ -8,7 +8,9 @@ LATE = 0.05     # lateness injected by the T+ choice (seconds)
 
 
 def r6(x):
-    return round(x, 6)
+    # times here are sums of halves and quarters: x often sits exactly on a rounding boundary (…5e-7) give or take 1e-16,
+    # so nudge it off the boundary to make equal instants round equally
+    return round(x + 1e-9, 6)
 
 
 def simple_state(obj, exclude=(), now=None, depth=1):
@@ -38,7 +40,7 @@ def _simple(v, now, depth):
     if v is None or isinstance(v, (bool, int, str)):
         return v
     if isinstance(v, float):
-        return round(v - now, 6) if (now is not None and abs(v - now) < 1000 and v >= 1e-3 - 1e-12) else round(v, 6)
+        return r6(v - now) if (now is not None and abs(v - now) < 1000 and v >= 1e-3 - 1e-12) else r6(v)
     if isinstance(v, (list, tuple)) and len(v) <= 8 and depth > 0:
         return tuple(_simple(x, now, depth - 1) for x in v)
     if isinstance(v, (set, frozenset)) and len(v) <= 8 and depth > 0:
